@@ -2,7 +2,7 @@ import collections
 import copy
 
 from types import CodeType
-from typing import Any, Dict, List, Optional, Mapping, Iterator
+from typing import Any, Dict, List, Optional, Mapping, Iterator, Tuple
 
 from . import Evaluator
 from ..exceptions import CodeEvaluationError
@@ -107,8 +107,8 @@ class PythonEvaluator(Evaluator):
         self._evaluable_code = {}  # type: Dict[str, CodeType]
         self._executable_code = {}  # type: Dict[str, CodeType]
 
-        # Frozen context for __old__
-        self._memory = {}  # type: Dict[int, FrozenContext]
+        # Frozen context for __old__, indexed by the identity of the state or transition
+        self._memory = {}  # type: Dict[int, Tuple[Any, FrozenContext]]
 
     @property
     def context(self) -> Mapping:
@@ -227,7 +227,7 @@ class PythonEvaluator(Evaluator):
 
         # Deal with __old__ in contracts, only required if there is an invariant or a postcondition
         if len(getattr(obj, 'invariants', [])) > 0 or len(getattr(obj, 'postconditions', [])) > 0:
-            self._memory[id(obj)] = FrozenContext(self._context)
+            self._memory[id(obj)] = (obj, FrozenContext(self._context))
 
         return filter(
             lambda c: not self._evaluate_code(c, additional_context=additional_context),
@@ -248,7 +248,7 @@ class PythonEvaluator(Evaluator):
         additional_context = {
             '__old__': self._memory.get(
                 id(obj),
-                None),
+                (None, None))[1],
             'after': (
                 lambda seconds: self._interpreter.time - seconds
                 >= self._interpreter._entry_time[state_name]
@@ -285,7 +285,7 @@ class PythonEvaluator(Evaluator):
         additional_context = {
             '__old__': self._memory.get(
                 id(obj),
-                None),
+                (None, None))[1],
             'after': (
                 lambda seconds: self._interpreter.time - seconds
                 >= self._interpreter._entry_time[state_name]
@@ -313,3 +313,8 @@ class PythonEvaluator(Evaluator):
         attributes['_executable_code'] = dict()  # Code fragment cannot be pickled
         attributes['_evaluable_code'] = dict()  # Code fragment cannot be pickled
         return attributes
+
+    def __setstate__(self, state):
+        self.__dict__.update(state)
+        # States and transitions get a new identity when they are unpickled or copied
+        self._memory = {id(obj): (obj, frozen) for obj, frozen in self._memory.values()}
